@@ -1,0 +1,26 @@
+//go:build verif
+
+package file
+
+var verifStopIDs chan struct{}
+
+// VerifRestartIDs makes the message ID counter start again at 0000, as it does whenever the
+// process restarts. Not safe for use while messages are being delivered.
+func VerifRestartIDs() {
+	if verifStopIDs != nil {
+		close(verifStopIDs)
+	}
+	stop := make(chan struct{})
+	c := make(chan int, 10)
+	verifStopIDs = stop
+	countChannel = c
+	go func() {
+		for i := 0; true; i = (i + 1) % 10000 {
+			select {
+			case c <- i:
+			case <-stop:
+				return
+			}
+		}
+	}()
+}
